@@ -1150,18 +1150,38 @@ func (c *ControlPlane) InheritDialerHealthFrom(previous *ControlPlane) bool {
 		if oldGroup == nil {
 			continue
 		}
-		oldDialers := make(map[string]*dialer.Dialer, len(oldGroup.Dialers))
+		// Node names are not unique (two subscriptions, repeated "#name" fragments), so the
+		// old members are indexed by name in group order and each hands its state to at
+		// most one new member: the one with the same name AND link; a name that occurs
+		// once in the old group still matches by name alone (the link may have been edited).
+		// A same-named node with another link inherits nothing rather than a stranger's state.
+		oldByName := make(map[string][]*dialer.Dialer, len(oldGroup.Dialers))
 		for _, d := range oldGroup.Dialers {
 			if d == nil || d.Property() == nil {
 				continue
 			}
-			oldDialers[d.Property().Name] = d
+			oldByName[d.Property().Name] = append(oldByName[d.Property().Name], d)
 		}
+		used := make(map[*dialer.Dialer]struct{})
 		for _, d := range group.Dialers {
 			if d == nil || d.Property() == nil {
 				continue
 			}
-			if oldDialer := oldDialers[d.Property().Name]; oldDialer != nil {
+			candidates := oldByName[d.Property().Name]
+			var oldDialer *dialer.Dialer
+			for _, candidate := range candidates {
+				if _, taken := used[candidate]; !taken && candidate.Property().Link == d.Property().Link {
+					oldDialer = candidate
+					break
+				}
+			}
+			if oldDialer == nil && len(candidates) == 1 {
+				if _, taken := used[candidates[0]]; !taken {
+					oldDialer = candidates[0]
+				}
+			}
+			if oldDialer != nil {
+				used[oldDialer] = struct{}{}
 				d.RestoreHealthSnapshot(oldDialer.ReloadHealthSnapshot())
 				hasOverlap = true
 			}
